@@ -278,3 +278,10 @@ package fastaio
 //@     invariant len(seq) == range_i && forall(j, 0, range_i, seq[j] == DA[EFR.Seq[j]][0])
 //@   ensures [fields] result.ID == EFR.ID && result.Description == EFR.Description && result.Idx == EFR.Idx
 //@   ensures [len] len(result.Seq) == len(EFR.Seq)
+//@ func FastaRecord.Degap
+//@   loop 1:
+//@     invariant len(t) == count(k, 0, range_i, FR.Seq[k] != '-')
+//@     invariant forall(j, 0, range_i, implies(FR.Seq[j] != '-', t[count(k, 0, j, FR.Seq[k] != '-')] == FR.Seq[j]))
+//@   ensures [fields] result.ID == FR.ID && result.Description == FR.Description && result.Idx == FR.Idx
+//@   ensures [len] len(result.Seq) == count(k, 0, len(FR.Seq), FR.Seq[k] != '-')
+//@   ensures [content] forall(j, 0, len(FR.Seq), implies(FR.Seq[j] != '-', result.Seq[count(k, 0, j, FR.Seq[k] != '-')] == FR.Seq[j]))
